@@ -322,3 +322,53 @@ Example real_document_calls :
   = [ [(rn "k", Values.GInt 5); (rn "o", Values.GMap [(rn "a", Values.GInt 1)])];
       [(rn "k", Values.GInt 7)] ].
 Proof. vm_compute. reflexivity. Qed.
+
+(** * round 7: the hypotheses of [C14_accepted_document_calls_conform] hold of the example schema in its
+    two encodings ([r_VS], [r_ES]) and of the example document; the two calls conform *)
+From ApiFu Require Cost.CostConformU Cost.CostConformDoc Vld.TypeInfoModel Vld.ProofsCommon Pipe.CondsProofs.
+
+Lemma r_raw_body_in S n b : Vld.Ast.raw_body S n = Some b -> exists d, In (n, d) (Vld.Ast.s_types S) /\ Vld.Ast.t_body d = b.
+Proof.
+  unfold Vld.Ast.raw_body, Vld.Ast.raw_type. destruct (Vld.Ast.assoc n (Vld.Ast.s_types S)) as [d|] eqn:Ea; [|discriminate].
+  intro H. inversion H. exists d. split; [apply ProofsCommon.assoc_in; exact Ea|reflexivity].
+Qed.
+
+Ltac r_types H :=
+  unfold r_VS in H; cbn [Vld.Ast.s_types In] in H;
+  repeat match type of H with _ \/ _ => destruct H as [H|H] end;
+  try contradiction; try (inversion H; subst; clear H).
+
+Example r_inputs_agree : CostConformDoc.inputs_agree r_VS [] r_ES.
+Proof.
+  constructor.
+  - apply CostRealDoc.scalars_leavesb_spec. vm_compute. reflexivity.
+  - intros n defs H. apply r_raw_body_in in H as (d & Hin & Hb). r_types Hin; cbn [Vld.Ast.t_body r_vty] in Hb; try discriminate.
+    injection Hb as <-. eexists. exists Values.HNone. split; vm_compute; reflexivity.
+  - intros n b H Hb. apply r_raw_body_in in H as (d & Hin & <-). r_types Hin; cbn [Vld.Ast.t_body r_vty] in Hb;
+      try discriminate; vm_compute; reflexivity.
+  - intros T n fd H. unfold Vld.TypeInfoModel.field_of_scope in H.
+    destruct (Vld.Ast.raw_body r_VS T) as [b|] eqn:Eb; [|discriminate].
+    apply r_raw_body_in in Eb as (d & Hin & <-). r_types Hin; cbn [Vld.Ast.t_body r_vty] in H; try discriminate.
+    unfold Vld.Ast.get_field in H.
+    match type of H with context [Vld.Ast.assoc n ?fs] => destruct (Vld.Ast.assoc n fs) as [f0|] eqn:Ef end.
+    + apply ProofsCommon.assoc_in in Ef. cbn [In] in Ef.
+      destruct Ef as [Ef|[Ef|[]]]; inversion Ef; subst; cbn [Vld.Ast.f_req Vld.Ast.subset] in H; inversion H; subst fd;
+        intros a vdef Ha; apply ProofsCommon.assoc_in in Ha; cbn [Vld.Ast.f_args In] in Ha.
+      * destruct Ha as [Ha|[Ha|[]]]; inversion Ha; subst; eexists; (split; [vm_compute; reflexivity|split; vm_compute; reflexivity]).
+      * destruct Ha.
+    + exfalso. revert H. vm_compute. discriminate.
+  - intros T n. unfold ExeA.ArgArgs.argdefs_of.
+    destruct (ExeA.ArgData.assoc T (ExeA.ArgData.s_argdefs r_ES)) as [fs|] eqn:Et; [|split; [reflexivity|intros ad []]].
+    destruct (ExeA.ArgData.assoc n fs) as [ads|] eqn:En; [|split; [reflexivity|intros ad []]].
+    apply Pipe.CondsProofs.exe_assoc_in in Et. unfold r_ES in Et. cbn [ExeA.ArgData.s_argdefs In] in Et.
+    destruct Et as [Et|[]]. inversion Et; subst. apply Pipe.CondsProofs.exe_assoc_in in En. cbn [In] in En.
+    destruct En as [En|[]]. inversion En; subst.
+    split; [vm_compute; reflexivity|]. intros ad [<-|[<-|[]]]; vm_compute; reflexivity.
+Qed.
+
+Example real_document_calls_conform :
+  forallb (fun c => CoerceSpec.args_conform_b r_E (af_argdefs (c_field c)) (c_args c))
+          (snd (validate_cost_trace unit r_E (ExeA.ArgArgs.dt_oracle r_ES) true 2 (Pipe.CostCompose.default_cost 1) tt
+                  (Pipe.CostCompose.c_ops r_ES r_A) (Pipe.CostCompose.c_frs r_ES r_A) [] [(rn "v", Values.JInt 7)] (-1)))
+  = true.
+Proof. vm_compute. reflexivity. Qed.
